@@ -96,6 +96,7 @@ func (h *DBH) Merge() (err error) {
 // TxResult is what a transaction step produced.
 type TxResult struct {
 	Res       []Res
+	AfterRes  []Res
 	CommitErr error
 	BeginErr  error
 	Panic     string // panic outside an op (Commit/Begin/Rollback)
@@ -187,6 +188,11 @@ func (h *DBH) RunTx(st Step, writable bool, pre func(i int, op *Op)) (tr TxResul
 			_ = tx.Rollback()
 		}
 	}()
+	if tr.Panic == "" {
+		for _, op := range st.After {
+			tr.AfterRes = append(tr.AfterRes, ExecOp(h, tx, op))
+		}
+	}
 	return
 }
 
